@@ -900,3 +900,167 @@ func (z *Sym) CellNote(c *ssa.Call) string {
 	}
 	return z.cellGroupOf(roots[0]).bad
 }
+
+// ---------------------------------------------------------------------------
+// 3. integer tables filled by a counted loop
+//
+//	var offs [6]int
+//	for i, f := range fields { offs[i] = running; running += len(f) }
+//	… uint32(offs[2]) …
+//
+// A load offs[k] (k constant in the reading activation) after the loop denotes
+// the value stored at index k: by a store at that constant index, or by the
+// iteration of a counted loop (unroll.go) whose index evaluates to k. The table
+// must be a local array / constant-length make of integers used only through
+// element loads and stores; the store found must be the only one that can
+// write index k, must execute in every iteration of its loop, and the loop must
+// have run to its end before the load.
+
+type symLoopKey struct {
+	hb    *ssa.BasicBlock
+	outer *Frame
+}
+
+func (z *Sym) countedLoop(hb *ssa.BasicBlock, outer *Frame) *Loop {
+	if lp, ok := z.loops[symLoopKey{hb, outer}]; ok {
+		return lp
+	}
+	if z.loops == nil {
+		z.loops = map[symLoopKey]*Loop{}
+	}
+	lp, why := loopShape(hb)
+	if why == "" {
+		lp.outer = outer
+		if lp.count() != "" {
+			lp = nil
+		}
+	} else {
+		lp = nil
+	}
+	z.loops[symLoopKey{hb, outer}] = lp
+	return lp
+}
+
+// innerLoopHeader: the header of the innermost natural loop containing b.
+func innerLoopHeader(b *ssa.BasicBlock) *ssa.BasicBlock {
+	for h := b; h != nil; h = h.Idom() {
+		if !isLoopHeader(h) {
+			continue
+		}
+		for _, p := range h.Preds {
+			if h.Dominates(p) && (p == b || reaches(b, p)) && h.Dominates(b) {
+				return h
+			}
+		}
+	}
+	return nil
+}
+
+func (z *Sym) intTableLoad(u *ssa.UnOp) (lin.Form, bool) {
+	no := lin.Form{}
+	ia, ok := u.X.(*ssa.IndexAddr)
+	if !ok || u.Op != token.MUL || !isIntT(u.Type()) {
+		return no, false
+	}
+	base := ia.X
+	switch b := base.(type) {
+	case *ssa.Alloc:
+		if arr, isArr := derefT(b.Type()).Underlying().(*types.Array); !isArr || !isIntT(arr.Elem()) {
+			return no, false
+		}
+	case *ssa.MakeSlice:
+		if _, isK := constI(b.Len); !isK {
+			return no, false
+		}
+	default:
+		return no, false
+	}
+	if base.Referrers() == nil {
+		return no, false
+	}
+	fr := scopeFrame(u, z.frame)
+	kf, isK := z.in(fr, func() lin.Form { return z.of(ia.Index, 0) }).ConstVal()
+	if !isK || !kf.IsInt64() {
+		return no, false
+	}
+	k := kf.Int64()
+	outer := funcFrame(fr)
+	var found *lin.Form
+	cands := 0
+	for _, r := range *base.Referrers() {
+		switch x := r.(type) {
+		case *ssa.DebugRef:
+		case *ssa.Call:
+			if b, isB := x.Common().Value.(*ssa.Builtin); !isB || (b.Name() != "len" && b.Name() != "cap") {
+				return no, false
+			}
+		case *ssa.IndexAddr:
+			for _, rr := range *x.Referrers() {
+				switch st := rr.(type) {
+				case *ssa.DebugRef:
+				case *ssa.UnOp:
+					if st.Op != token.MUL {
+						return no, false
+					}
+				case *ssa.Store:
+					if st.Addr != ssa.Value(x) {
+						return no, false
+					}
+					hb := innerLoopHeader(st.Block())
+					if hb == nil {
+						idx, isC := constI(x.Index)
+						if !isC {
+							return no, false
+						}
+						if idx != k {
+							continue
+						}
+						if !instrBefore(st, u) {
+							return no, false
+						}
+						cands++
+						f := z.in(outer, func() lin.Form { return z.of(st.Val, 0) })
+						found = &f
+						continue
+					}
+					lp := z.countedLoop(hb, outer)
+					if lp == nil || !st.Block().Dominates(hb.Preds[lp.back]) {
+						return no, false
+					}
+					// the loop is not nested in another one and has finished before the load
+					if oh := innerLoopHeader(hb.Preds[lp.entry]); oh != nil {
+						return no, false
+					}
+					exit := hb.Succs[0]
+					if lp.blocks[exit] {
+						exit = hb.Succs[1]
+					}
+					if lp.blocks[u.Block()] || !exit.Dominates(u.Block()) || len(exit.Preds) != 1 {
+						return no, false
+					}
+					for j := 0; j < lp.N; j++ {
+						fj := lp.frame(j)
+						idx, isC := z.in(fj, func() lin.Form { return z.of(x.Index, 0) }).ConstVal()
+						if !isC || !idx.IsInt64() {
+							return no, false
+						}
+						if idx.Int64() != k {
+							continue
+						}
+						cands++
+						f := z.in(fj, func() lin.Form { return z.of(st.Val, 0) })
+						found = &f
+					}
+				default:
+					return no, false
+				}
+			}
+		default:
+			return no, false
+		}
+	}
+	if cands != 1 || found == nil {
+		return no, false
+	}
+	return *found, true
+}
